@@ -5,7 +5,7 @@ Each generated program (biased to constructs whose compilation iterates over has
 and classes, multi-pattern case clauses, case merges, greedy priorities) is compiled in *fresh processes* under
   PYTHONHASHSEED in {0, 1, 2, random}  x  history {none, after 1-3 other programs incl. rejected ones and other
   flag sets, twice in a row}  x  heap perturbation,
-and all runs must agree on the verdict (and error class) and on behaviour: byte-identical C after normalising
+and all runs must agree on the accept/reject verdict and on behaviour: byte-identical C after normalising
 object addresses, otherwise identical abstract-machine behaviour on every input up to length L over the program's
 byte-class representatives.
 """
@@ -50,7 +50,9 @@ def check_program(shard, src, argv, alphabet, histories, max_len=4):
         shard.event("evaluations")
     base = results[0][1]
     for setting, res in results[1:]:
-        if (res["kind"], res.get("exc")) != (base["kind"], base.get("exc")):
+        if res["kind"] == base["kind"] and res.get("exc") != base.get("exc"):
+            shard.event("same_verdict_different_error_class")     # a doubly invalid program may report either problem first
+        if res["kind"] != base["kind"]:
             raise Failure("c20:verdict-differs", "setting (hashseed, history length, perturbation) %r gives %s/%s, baseline gives %s/%s (%s | %s)"
                           % (setting, res["kind"], res.get("exc"), base["kind"], base.get("exc"), res.get("msg_head"), base.get("msg_head")),
                           dict(replay, setting=list(map(str, setting))))
